@@ -129,6 +129,10 @@ Theorem model_meets_spec : forall l m ts,
 Proof. exact model_meets_spec_wire. Qed.
 Print Assumptions model_meets_spec.
 
+Theorem model_meets_spec_purity : forall l, is_purity l = true -> run_spec l (run_model l) = [].
+Proof. exact model_meets_spec_purity_line. Qed.
+Print Assumptions model_meets_spec_purity.
+
 Theorem model_meets_spec_cases : forall m ts, check_case m ts (run_case m ts) = [].
 Proof. exact check_case_model. Qed.
 Print Assumptions model_meets_spec_cases.
